@@ -125,6 +125,18 @@ func genC03(r *rand.Rand, run int, tier string) *vm.Plan {
 	}
 	h.add(vm.Op{K: "verify", A: tl, KS: &vm.KeySel{Key: key}, Az: &az, Qs: qs, Lim: bigDur, Name: "twin"})
 	h.add(vm.Op{K: "verify", A: tx, KS: &vm.KeySel{Key: key}, Az: &az, Qs: qs, Lim: bigDur, Name: "twin", Map: perm})
+	// a later block whose own evaluation trips a limit: the authorizer's queries must still see
+	// the authority-level closure only (decided by the reference closure, not by twin agreement)
+	if r.Intn(3) == 0 {
+		ch := chain(6 + r.Intn(6))
+		ch.Facts = append(ch.Facts, g.Hostile(targets, known, false).Facts...)
+		ty := h.attenuate(tl, ch)
+		lim := &vm.Lim{MaxDurNs: 1e9, MaxIter: 3 + r.Intn(3)}
+		if r.Intn(2) == 0 {
+			lim = &vm.Lim{MaxDurNs: 1e9, MaxFacts: len(auth.Facts) + len(az.Facts) + 4}
+		}
+		h.add(vm.Op{K: "verify", A: ty, KS: &vm.KeySel{Key: key}, Az: &az, Qs: qs, Lim: lim, Flags: []string{"query-after-limit"}})
+	}
 	return h.p
 }
 
@@ -134,7 +146,7 @@ func init() {
 		Rule: "twin delegation histories from the same authority content: lineage L carries 0-2 check-bearing blocks, lineage L' carries the same blocks plus 1-3 extra CHECK-FREE blocks (facts and rules generated against the authorizer's policies/checks and the other blocks' checks) inserted at random positions; both are authorized with the same authorizer content and the same panel of queries by fresh authorizers (calm schedule). Twin agreement: same verdict class, same set of failed checks (block indexes remapped through the known insertion positions), same query result sets. Visibility of authority/authorizer facts in later blocks is decided by the reference verdict (C04 oracle) on the same runs. non-trivial = a twin pair was compared (distinct by plan hash)",
 		Gen: genC03,
 		Oracles: func(m *vm.VM) []vm.Oracle {
-			return []vm.Oracle{vm.Common{Prop: "C03"}, vm.AgreeOracle{Prop: "C03", Invariant: "scoping-twin-disagrees", Failed: true, Remap: true, Queries: true, SameAz: true}, vm.VerdictOracle{Prop: "C04"}}
+			return []vm.Oracle{vm.Common{Prop: "C03"}, vm.AgreeOracle{Prop: "C03", Invariant: "scoping-twin-disagrees", Failed: true, Remap: true, Queries: true, SameAz: true}, vm.QueryOracle{Prop: "C03"}, vm.VerdictOracle{Prop: "C04"}}
 		},
 		Nontrivial: func(res *vm.Result) bool { return res.Probes["agree_groups_compared"] > 0 },
 		Real:       realAll, Simulated: simAll[:4], Assumptions: assumeAll[1:],
@@ -398,7 +410,8 @@ func genC18(r *rand.Rand, run int, tier string) *vm.Plan {
 	snap := h.add(vm.Op{K: "azsave", A: az, Out: h.slot()})
 	// saving is refused once evaluated
 	if r.Intn(2) == 0 {
-		h.add(vm.Op{K: "azauth", A: az})
+		// the original itself, evaluated after the snapshot was taken: member of the tok0 twin group
+		h.add(vm.Op{K: "azauth", A: az, Qs: qs, Name: "tok0"})
 	} else {
 		h.add(vm.Op{K: "azquery", A: az, Qs: qs[:1]})
 	}
